@@ -157,6 +157,10 @@ func (c *curvePoint) Double(a *curvePoint) {
 	gfpMul(B, &a.y, &a.y)
 	gfpMul(C, B, B)
 
+	// y·z of the input, taken before c.y is written: c may alias a
+	yz := &gfP{}
+	gfpMul(yz, &a.y, &a.z)
+
 	t, t2 := &gfP{}, &gfP{}
 	gfpAdd(t, &a.x, B)
 	gfpMul(t2, t, t)
@@ -179,8 +183,7 @@ func (c *curvePoint) Double(a *curvePoint) {
 	gfpMul(t2, e, &c.y)
 	gfpSub(&c.y, t2, t)
 
-	gfpMul(t, &a.y, &a.z)
-	gfpAdd(&c.z, t, t)
+	gfpAdd(&c.z, yz, yz)
 }
 
 func (c *curvePoint) Mul(a *curvePoint, scalar *big.Int) {
